@@ -28,7 +28,7 @@ var c07Tris = []string{"timestampsFullPrecision", "pageArith", "limitZeroAll", "
 	"addGuardCreated", "addGuardUpdated", "addGuardExpire", "addGuardValueType",
 	"updRefreshCreated", "updRefreshUpdated", "updRefreshValue", "updRefreshExpireOnFlag",
 	"typeChangeDetected", "valueShared", "flagsSticky", "setVoidClearsTyped", "initialisedAfterFill",
-	"refileGuardExpire", "patchExpiredReindexesAll", "claimPathsStandard",
+	"refileGuardExpire", "patchExpiredReindexesAll", "claimPathsStandard", "windowBoundsChecked",
 	"getBeaconServesAllValueTypes", "getBeaconBuildsRequestedType"}
 
 func c07Run(fs *Facts) {
@@ -125,6 +125,8 @@ func c07Bounds(fs *Facts, f *File) {
 	}
 	c07Canon(fd, []string{"b", "fromTime", "toTime", "n", "fromNano", "toNano", "isAscending", "startIdx", "endIdx",
 		"l", "r", "m", "l", "r", "m", "l", "r", "m", "l", "r", "m"})
+	c07Canon(fd, []string{"b", "fromTime", "toTime", "n", "fromNano", "toNano", "hasFrom", "hasTo", "empty", "isAscending", "startIdx", "endIdx",
+		"l", "r", "m", "l", "r", "m", "l", "r", "m", "l", "r", "m"})
 	var split *ast.IfStmt
 	for _, st := range fd.Body.List {
 		if ifs, ok := st.(*ast.IfStmt); ok && f.Str(ifs.Cond) == "isAscending" {
@@ -140,12 +142,20 @@ func c07Bounds(fs *Facts, f *File) {
 	}
 	// the normalisation tail and the initial bounds must be the known ones
 	for _, want := range []string{"startIdx := 0", "endIdx := n - 1", "if n == 0 { return 0, -1 }",
-		"if startIdx > endIdx || startIdx >= n || endIdx < 0 { return 0, -1 }", "return startIdx, endIdx",
-		"fromNano = fromTime.UTC().UnixNano()", "toNano = toTime.UTC().UnixNano()"} {
+		"if startIdx > endIdx || startIdx >= n || endIdx < 0 { return 0, -1 }", "return startIdx, endIdx"} {
 		if !f.Contains(fd.Body, want) {
 			return
 		}
 	}
+	// how the two bounds become int64 nanoseconds: converted as they are (UnixNano wraps outside
+	// 1677…2262), or through WindowNanos, which recognises bounds that cannot be represented
+	raw := f.Contains(fd.Body, "if fromTime != nil { fromNano = fromTime.UTC().UnixNano() } if toTime != nil { toNano = toTime.UTC().UnixNano() }")
+	checked := f.Contains(fd.Body, "fromNano, toNano, hasFrom, hasTo, empty := WindowNanos(fromTime, toTime) if empty { return 0, -1 } if !hasFrom { fromTime = nil } if !hasTo { toTime = nil }") &&
+		!f.Contains(fd.Body, "UnixNano()") && c07WindowNanosShape(f)
+	if raw == checked {
+		return
+	}
+	c07WindowFact(fs, f, fd, checked)
 	desc, ok := split.Else.(*ast.BlockStmt)
 	if !ok || len(split.Body.List) != 2 || len(desc.List) != 2 {
 		return
@@ -714,5 +724,43 @@ func c07BuildOrder(fs *Facts, f *File) {
 		fs.Tri("initialisedAfterFill", No, where)
 	case flagLast("beaconASC") && flagLast("beaconDESC") && locked:
 		fs.Tri("initialisedAfterFill", Yes, where)
+	}
+}
+
+// WindowNanos: a lower bound above the representable range or an upper bound below it makes the window
+// empty; a lower bound below / an upper bound above is dropped; everything else is UnixNano()
+func c07WindowNanosShape(f *File) bool {
+	fd := f.Func("", "WindowNanos")
+	if fd == nil {
+		return false
+	}
+	body := f.Str(fd.Body)
+	return c07InOrder(body,
+		"if from != nil { switch { case from.After(maxNanoTime): return 0, 0, false, false, true case !from.Before(minNanoTime): fromNano, hasFrom = from.UnixNano(), true } }",
+		"if to != nil { switch { case to.Before(minNanoTime): return 0, 0, false, false, true case !to.After(maxNanoTime): toNano, hasTo = to.UnixNano(), true } }",
+		"return") &&
+		strings.Contains(string(f.Src), "minNanoTime = time.Unix(0, math.MinInt64)") && strings.Contains(string(f.Src), "maxNanoTime = time.Unix(0, math.MaxInt64)")
+}
+
+// the shift path converts its bounds in timeBoundsNanos (gateway): it must do it the way the index read does
+func c07WindowFact(fs *Facts, f *File, fd *ast.FuncDecl, checked bool) {
+	const shiftGo = "app/server/gateway/gateway_shift_matching.go"
+	g, err := Load(shiftGo)
+	if err != nil {
+		return
+	}
+	tb := g.Func("", "timeBoundsNanos")
+	if tb == nil {
+		return
+	}
+	body := g.Str(tb.Body)
+	rawS := strings.Contains(body, "if from != nil { fromNano = from.UTC().UnixNano() } if to != nil { toNano = to.UTC().UnixNano() }")
+	checkedS := strings.Contains(body, "fn, tn, hasFrom, hasTo, empty := beacon.WindowNanos(from, to) if empty { return maxInt64, minInt64 } if hasFrom { fromNano = fn } if hasTo { toNano = tn }") &&
+		!strings.Contains(body, "UnixNano()")
+	switch {
+	case checked && checkedS:
+		fs.Tri("windowBoundsChecked", Yes, c07At(c07Beacon, f, fd))
+	case !checked && rawS:
+		fs.Tri("windowBoundsChecked", No, c07At(c07Beacon, f, fd))
 	}
 }
